@@ -88,6 +88,23 @@ def loop_program(t, kind):
     raise ValueError(kind)
 
 
+def fail_program(t, kind):
+    """member flows can also be ended from the outside (event Q<i> makes a helper send StopFlow for member i): a member that
+    failed can never contribute to the formula any more"""
+    leaves = leaves_of(t)
+    fname = lambda x: "f" + x.lower().replace("e", "x")  # noqa: E731
+    flows = "".join("flow %s\n  match %s()\n\n" % (fname(x), x) for x in leaves)
+    killers = "".join("flow k%s\n  match Q%s()\n  send StopFlow(flow_id=\"%s\")\n\n" % (x[1:], x[1:], fname(x)) for x in leaves)
+    kstart = "".join("  start k%s\n" % x[1:] for x in leaves)
+    if kind == "await":
+        body = "  start worker\n  match Never()\n\nflow worker\n  await %s\n  send Done()\n  match Never2()\n\n" % render(t, fname)
+    elif kind == "when":
+        body = "  start worker\n  match Never()\n\nflow worker\n  when %s\n    send Done()\n  else\n    send Gave()\n  match Never2()\n\n" % render(t, fname)
+    else:
+        raise ValueError(kind)
+    return "flow main\n" + kstart + body + flows + killers
+
+
 def program(t, kind, imm=()):
     leaves = leaves_of(t)
     # a member flow listed in `imm` never waits: it finishes while it is being started
@@ -172,6 +189,22 @@ def cases(tier, seed):
         seq = [rngl.choice(leaves + ["X"]) for _ in range(rngl.randint(5, 12))]
         i += 1
         yield {"id": i, "kind": rngl.choice(KINDS), "tree": t, "seq": seq, "mode": "loop", "api": rngl.random() < 0.15}
+    # member flows that FAIL while the statement waits (ended from the outside): all trees with 2-3 leaves x sampled sequences of
+    # finish / fail events, sampled 4 leaves
+    rngf = random.Random(5000 + seed)
+    for kind in ("await", "when"):
+        for nl in (2, 3, 4):
+            leaves = ["E%d" % j for j in range(nl)]
+            for t in trees(leaves):
+                if nl == 4 and rngf.random() > (0.25 if tier == "quick" else 1.0):
+                    continue
+                for _ in range(6 if tier == "quick" else 20):
+                    toks = leaves + ["Q" + x[1:] for x in leaves]
+                    seq = [rngf.choice(toks) for _ in range(rngf.randint(2, nl + 2))]
+                    if not any(x.startswith("Q") for x in seq):
+                        seq[rngf.randrange(len(seq))] = "Q" + rngf.choice(leaves)[1:]
+                    i += 1
+                    yield {"id": i, "kind": kind, "tree": t, "seq": seq, "mode": "fail"}
     # sampled larger formulas
     rng = random.Random(1000 + seed)
     nsamp = 1500 if tier == "quick" else 40000
@@ -205,6 +238,8 @@ def run_case(case):
     t, kind, seq, mode = case["tree"], case["kind"], case["seq"], case["mode"]
     if mode == "loop":
         return run_loop(case)
+    if mode == "fail":
+        return run_fail(case)
     imm = tuple(case.get("imm") or ())
     src = program(t, kind, imm)
     L["random"].reset(seed=zlib.crc32(repr((t, kind, seq)).encode()))
@@ -326,7 +361,73 @@ def run_loop(case):
     return dict(base, verdict="held", observed=obs)
 
 
+def run_fail(case):
+    """oracle: a member that finished is true; a member that was ended before it finished is dead and stays false. The marker
+    appears at exactly the first event at which the formula is true; if the formula can no longer become true (every
+    and-group has a dead member) the statement gives up: `when` takes its else branch at that event, `await` fails its flow."""
+    from . import steps, v2h
+
+    L = v2h.load()
+    t, kind, seq = case["tree"], case["kind"], case["seq"]
+    src = fail_program(t, kind)
+    L["random"].reset(seed=zlib.crc32(repr((t, kind, seq)).encode()))
+    L["clock"].reset()
+    groups = dnf(t)
+    obs = {"events_fed": 0, "fail_cases": 1}
+    sample = {"kind": kind, "formula": render(t, lambda x: x), "events": seq, "members_can_fail": True}
+    base = {"key": repr((kind, t, seq, "fail")), "imm": [], "nontrivial": (ops(t) == {"and", "or"} or len(leaves_of(t)) >= 3), "sample": sample, "kind": kind, "groups": len(groups), "failmode": True}
+    try:
+        st = v2h.mk(src)
+    except v2h.LoaderReject as e:
+        return dict(base, verdict="inconclusive", reason="loader-reject", detail=str(e), nontrivial=False)
+    true, dead = set(), set()
+    exp_done = exp_gave = None
+    got_done = got_gave = None
+    err = None
+    for i, e in enumerate(seq):
+        try:
+            out = v2h.run(st, {"type": e})
+        except steps.StepBudgetExceeded:
+            return dict(base, verdict="inconclusive", reason="expected:nonterminating(C10)", nontrivial=False)
+        except Exception as ex:
+            err = "%s: %s" % (type(ex).__name__, str(ex)[:120])
+            break
+        obs["events_fed"] += 1
+        if exp_done is None and exp_gave is None:
+            if e.startswith("E"):
+                if e not in dead:
+                    true.add(e)
+            elif ("E" + e[1:]) not in true:
+                dead.add("E" + e[1:])
+            if evaluate(t, true):
+                exp_done = i
+            elif all(set(g) & dead for g in groups):
+                exp_gave = i
+        ty = v2h.types(out)
+        if got_done is None and "Done" in ty:
+            got_done = i
+        if got_gave is None and "Gave" in ty:
+            got_gave = i
+    obs["fail_outcome_" + ("done" if exp_done is not None else "gave-up" if exp_gave is not None else "still-waiting")] = 1
+    obs["fail_cases_with_dead_member_before_completion"] = int(exp_done is not None and bool(dead))
+    sample.update(expected_done=exp_done, expected_gave_up=exp_gave, marker=got_done, else_marker=got_gave)
+    bad = err is not None or got_done != exp_done or (kind == "when" and got_gave != exp_gave)
+    if kind == "await" and exp_gave is not None and not bad:
+        ws = st.flow_id_states.get("worker", [])
+        status = getattr(ws[-1].status, "value", str(ws[-1].status)) if ws else "absent"
+        if status not in ("stopped", "finished"):
+            bad = True
+            err = "the awaiting flow is still %s although no and-group can complete any more" % status
+    if bad:
+        return dict(base, verdict="violated", observed=obs, witness={"program": src, "events": seq, "expected_done": exp_done, "expected_gave_up": exp_gave, "marker_index": got_done,
+                                                                      "else_marker_index": got_gave, "exception": err, "dnf_groups": len(groups)})
+    return dict(base, verdict="held", observed=obs)
+
+
 def classify(r):
+    if r.get("failmode"):
+        w = r.get("witness", {})
+        return "members-fail:" + ("exception:" + w["exception"].split(":")[0] if w.get("exception") and ":" in w["exception"] and w["exception"].split(":")[0].isidentifier() else "outcome-differs:%s" % r.get("kind"))
     if r.get("loop"):
         w = r.get("witness", {})
         return "loop:" + ("exception:" + w["exception"].split(":")[0] if w.get("exception") else "completion-indices-differ:%s" % r.get("kind"))
